@@ -138,3 +138,110 @@ func VerifC12RunBatch(names []string, stderr io.Reader, during func(i int, name 
 	}
 	return obs
 }
+
+// ---------------------------------------------------------------------------------------------
+// The reference CLIENT's feedback (mode server: the client under the runner's control is the
+// reference client; its ClientResponseResult.feedback lists what it found wrong with the server's
+// response). The callback of runTestCasesForServer hands every message to
+// results.recordSideband(resp.TestName, msg); report() merges them into the outcomes.
+// ---------------------------------------------------------------------------------------------
+
+// VerifC12ClientCase: what the scripted reference client answers for one case.
+type VerifC12ClientCase struct {
+	Name     string
+	Mismatch bool     // the response differs from the expected one (the case fails on its own account)
+	Feedback []string // ClientResponseResult.feedback
+}
+
+type VerifC12ClientFbObs struct {
+	Sideband [][2]string // sorted (test case, message held for it) after the batch
+	Merged   [][2]string // sorted (test case, text of its failure) after the merge report() performs; cases without failure are absent
+	Hang     bool
+}
+
+type verifC12FbClient struct {
+	cases []VerifC12ClientCase
+	tcs   []*conformancev1.TestCase
+	mu    sync.Mutex
+	calls int
+}
+
+func (c *verifC12FbClient) sendRequest(req *conformancev1.ClientCompatRequest, whenDone func(string, *conformancev1.ClientCompatResponse, error)) error {
+	c.mu.Lock()
+	i := c.calls
+	c.calls++
+	c.mu.Unlock()
+	if i >= len(c.cases) {
+		return errors.New("verif: more requests than cases")
+	}
+	result := proto.Clone(c.tcs[i].ExpectedResponse).(*conformancev1.ClientResponseResult) //nolint:forcetypeassert
+	if c.cases[i].Mismatch {
+		result.Payloads = []*conformancev1.ConformancePayload{{Data: []byte("other")}}
+	}
+	result.Feedback = append([]string{}, c.cases[i].Feedback...)
+	whenDone(req.TestName, &conformancev1.ClientCompatResponse{TestName: req.TestName,
+		Result: &conformancev1.ClientCompatResponse_Response{Response: result}}, nil)
+	return nil
+}
+
+func (c *verifC12FbClient) closeSend()              {}
+func (c *verifC12FbClient) waitForResponses() error { return nil }
+func (c *verifC12FbClient) isRunning() bool         { return true }
+func (c *verifC12FbClient) stop()                   {}
+
+// VerifC12ClientFeedback runs the real runTestCasesForServer (reference client, server under
+// test) on a scripted server process and the scripted reference client.
+func VerifC12ClientFeedback(cases []VerifC12ClientCase) VerifC12ClientFbObs {
+	tcs := make([]*conformancev1.TestCase, len(cases))
+	for i, cs := range cases {
+		tcs[i] = &conformancev1.TestCase{
+			Request:          &conformancev1.ClientCompatRequest{TestName: cs.Name},
+			ExpectedResponse: &conformancev1.ClientResponseResult{Payloads: []*conformancev1.ConformancePayload{{Data: []byte("data")}}},
+		}
+	}
+	results := newResults(len(tcs), &testTrie{}, &testTrie{}, nil)
+	proc := &verifC11Proc{doneCh: make(chan struct{})}
+	starter := func(_ context.Context, _ bool) (*process, error) {
+		return &process{processController: proc, stdin: &verifC11Stdin{spec: &VerifC11Spec{Write: "ok", Close: "ok"}},
+			stdout: &verifC11Stdout{proc: proc, data: verifC11RespBytes(false)}, stderr: &verifC11Stderr{eof: make(chan struct{})}}, nil
+	}
+	client := &verifC12FbClient{cases: cases, tcs: tcs}
+	meta := serverInstance{protocol: conformancev1.Protocol_PROTOCOL_CONNECT, httpVersion: conformancev1.HTTPVersion_HTTP_VERSION_1}
+	done := make(chan struct{})
+	go func() {
+		defer close(done)
+		runTestCasesForServer(context.Background(), true, false, meta, tcs, nil, nil, starter,
+			verifNopPrinter{}, verifNopPrinter{}, results, client, nil, false)
+	}()
+	var obs VerifC12ClientFbObs
+	t := time.NewTimer(VerifC12HangWindow)
+	select {
+	case <-done:
+		t.Stop()
+	case <-t.C:
+		obs.Hang = true
+		proc.stop()
+		return obs
+	}
+	results.mu.Lock()
+	for name, msg := range results.serverSideband {
+		obs.Sideband = append(obs.Sideband, [2]string{name, msg})
+	}
+	// what report() does first
+	results.processSidebandInfoLocked()
+	for name, o := range results.outcomes {
+		if o.actualFailure != nil {
+			obs.Merged = append(obs.Merged, [2]string{name, o.actualFailure.Error()})
+		}
+	}
+	results.mu.Unlock()
+	sort.Slice(obs.Sideband, func(i, j int) bool { return obs.Sideband[i][0] < obs.Sideband[j][0] })
+	sort.Slice(obs.Merged, func(i, j int) bool { return obs.Merged[i][0] < obs.Merged[j][0] })
+	if obs.Sideband == nil {
+		obs.Sideband = [][2]string{}
+	}
+	if obs.Merged == nil {
+		obs.Merged = [][2]string{}
+	}
+	return obs
+}
